@@ -27,6 +27,8 @@ type tEvent struct {
 	P        []int   `json:"p"`
 	Bounding bool    `json:"bounding"`
 	Bounded  bool    `json:"bounded"`
+	Cb       bool    `json:"cb"` // build: the collection is a kdtree.Bounder
+	Ee       bool    `json:"ee"` // build, insert: the elements are kdtree.Extenders
 	Len      int     `json:"len"`
 	Impl     string  `json:"impl"`
 	Kind     string  `json:"kind"`
@@ -53,6 +55,8 @@ func toInts(f []float64) []int {
 	return r
 }
 
+func toFloats(c []int) []float64 { return []float64(toPoint(c)) }
+
 func toPoint(c []int) kdtree.Point {
 	p := make(kdtree.Point, len(c))
 	for i, v := range c {
@@ -75,6 +79,9 @@ func exactInt(d float64) int {
 // coordinates, so that queries can lie between them; small ranges force
 // duplicates and ties): bulk construction, insertions, and after each phase
 // queries answered by the live k-d tree and by a vp-tree built from the same bag.
+// The k-d trees are built over kdtree.Points and over the user types of index.go
+// (Extender or plain Comparable elements, collections that are or are not
+// Bounders); the vp-tree over vptree.Point or the user type vpt.
 func recordIndexTrace(out *core.Out, args []string, seed int64, sum *core.Summary) error {
 	am := argMap(args)
 	runs := atoi(am["runs"], 6)
@@ -85,7 +92,12 @@ func recordIndexTrace(out *core.Out, args []string, seed int64, sum *core.Summar
 	if am["salt"] == "b" {
 		rng = rand.New(rand.NewPCG(uint64(seed)+0x9e3779b9, 78))
 	}
+	kinds := []string{"kd-points", "kd-plain", "kd-custom", "kd-plain-nb", "kd-ext-nb"}
+	koff := rng.IntN(len(kinds))
 	for run := 0; run < runs; run++ {
+		kk := kdKinds[kinds[(run+koff)%len(kinds)]]
+		vk := vpKinds[[]string{"vp", "vp-custom"}[(run+koff)%2]]
+		sum.Count("runs_"+kinds[(run+koff)%len(kinds)], 1)
 		dim := 1 + run%6
 		span := []int{2, 4, 15, 40}[rng.IntN(4)] // coordinates 0,2,..,2*span
 		sizes := []int{0, 1, 2, 7, 60, 400, maxn}
@@ -97,6 +109,9 @@ func recordIndexTrace(out *core.Out, args []string, seed int64, sum *core.Summar
 		if nb >= 400 && ni > 40 {
 			ni = 40
 		}
+		if kk.cb && !kk.ee && nb == 0 {
+			nb = 7
+		}
 		randPt := func() []int {
 			p := make([]int, dim)
 			for i := range p {
@@ -107,32 +122,43 @@ func recordIndexTrace(out *core.Out, args []string, seed int64, sum *core.Summar
 		var bag [][]int
 		out.Emit(blank("reset"))
 		pts := make([][]int, nb)
-		kp := make(kdtree.Points, nb)
+		fp := make([][]float64, nb)
 		for i := range pts {
 			pts[i] = randPt()
-			kp[i] = toPoint(pts[i])
+			fp[i] = toFloats(pts[i])
 		}
 		bag = append(bag, pts...)
 		bb := rng.IntN(2) == 0
+		if kk.cb && !kk.ee && nb > 0 {
+			// plain Comparables in a Bounder collection: mostly the history that leaves
+			// volumes behind (bulk construction with volumes, then insertions)
+			bb = rng.IntN(4) != 0
+			if ni == 0 {
+				ni = 40
+			}
+			if bb {
+				sum.Count("histories_leaving_stale_volumes", 1)
+			}
+		}
 		ev := blank("build")
 		ev.Pts = pts
 		if pts == nil {
 			ev.Pts = [][]int{}
 		}
-		ev.Bounding = bb
-		t := kdtree.New(kp, bb)
+		ev.Bounding, ev.Cb, ev.Ee = bb, kk.cb, kk.ee
+		t := kdtree.New(kk.list(fp), bb)
 		ev.Len = t.Len()
 		ev.Bounded = t.Root != nil && t.Root.Bounding != nil
 		out.Emit(ev)
 		queries := func() {
 			if boxOnly {
-				boxQueries(out, sum, rng, t, bag, dim, span, nq)
+				boxQueries(out, sum, rng, kk, t, bag, dim, span, nq)
 				return
 			}
 			// a vp-tree of the same bag
 			vs := make([]vptree.Comparable, len(bag))
 			for i, p := range bag {
-				vs[i] = vptree.Point(toPoint(p))
+				vs[i] = vk.point(toFloats(p), i)
 			}
 			vt, err := vptree.New(vs, []int{0, 3, 10}[rng.IntN(3)], rand.NewPCG(uint64(seed), uint64(run)))
 			if err != nil {
@@ -162,7 +188,7 @@ func recordIndexTrace(out *core.Out, args []string, seed int64, sum *core.Summar
 				default:
 					q = randPt()
 				}
-				qp := toPoint(q)
+				qp := kk.point(toFloats(q), -1)
 				k := []int{1, 2, 3, 10, 50}[rng.IntN(5)]
 				r2 := []int{0, 1, 4, 5, 8, 16, 36}[rng.IntN(7)]
 				// kdtree
@@ -171,7 +197,7 @@ func recordIndexTrace(out *core.Out, args []string, seed int64, sum *core.Summar
 					e.Impl, e.Kind, e.Q = "kd", "nearest", q
 					p, d := t.Nearest(qp)
 					if p != nil {
-						e.Res = [][]int{toInts(p.(kdtree.Point))}
+						e.Res = [][]int{toInts(kk.coords(p))}
 						e.Cd = []int{exactInt(d)}
 					}
 					out.Emit(e)
@@ -179,13 +205,13 @@ func recordIndexTrace(out *core.Out, args []string, seed int64, sum *core.Summar
 					e.Impl, e.Kind, e.Q, e.K = "kd", "knn", q, k
 					nk := kdtree.NewNKeeper(k)
 					t.NearestSet(nk, qp)
-					e.Res, e.Cd = kdRes(nk.Heap)
+					e.Res, e.Cd = kdRes(kk, nk.Heap)
 					out.Emit(e)
 					e = blank("query")
 					e.Impl, e.Kind, e.Q, e.R = "kd", "within", q, r2
 					dk := kdtree.NewDistKeeper(float64(r2))
 					t.NearestSet(dk, qp)
-					e.Res, e.Cd = kdRes(dk.Heap)
+					e.Res, e.Cd = kdRes(kk, dk.Heap)
 					out.Emit(e)
 					c := blank("contains")
 					c.Q = q
@@ -194,19 +220,19 @@ func recordIndexTrace(out *core.Out, args []string, seed int64, sum *core.Summar
 				}
 				// vptree (distances are Euclidean there; only the returned points are logged)
 				{
-					vq := vptree.Point(qp)
+					vq := vk.point(toFloats(q), -1)
 					e := blank("query")
 					e.Impl, e.Kind, e.Q = "vp", "nearest", q
 					p, _ := vt.Nearest(vq)
 					if p != nil {
-						e.Res = [][]int{toInts(p.(vptree.Point))}
+						e.Res = [][]int{toInts(vk.coords(p))}
 					}
 					out.Emit(e)
 					e = blank("query")
 					e.Impl, e.Kind, e.Q, e.K = "vp", "knn", q, k
 					nk := vptree.NewNKeeper(k)
 					vt.NearestSet(nk, vq)
-					e.Res = vpRes(nk.Heap)
+					e.Res = vpRes(vk, nk.Heap)
 					out.Emit(e)
 					if isSquare(r2) {
 						// integer radius: exact in floating point (the inexact-radius
@@ -215,7 +241,7 @@ func recordIndexTrace(out *core.Out, args []string, seed int64, sum *core.Summar
 						e.Impl, e.Kind, e.Q, e.R = "vp", "within", q, r2
 						dk := vptree.NewDistKeeper(math.Sqrt(float64(r2)))
 						vt.NearestSet(dk, vq)
-						e.Res = vpRes(dk.Heap)
+						e.Res = vpRes(vk, dk.Heap)
 						out.Emit(e)
 					}
 				}
@@ -223,7 +249,7 @@ func recordIndexTrace(out *core.Out, args []string, seed int64, sum *core.Summar
 			}
 			if len(bag) <= 300 {
 				e := blank("tree")
-				e.Nodes = dumpTree(t.Root)
+				e.Nodes = dumpTree(kk, t.Root)
 				out.Emit(e)
 				sum.Count("tree_dumps", 1)
 			}
@@ -236,8 +262,8 @@ func recordIndexTrace(out *core.Out, args []string, seed int64, sum *core.Summar
 			}
 			ib := rng.IntN(2) == 0
 			e := blank("insert")
-			e.P, e.Bounding = p, ib
-			t.Insert(toPoint(p), ib)
+			e.P, e.Bounding, e.Ee = p, ib, kk.ee
+			t.Insert(kk.point(toFloats(p), 1000+i), ib)
 			bag = append(bag, p)
 			e.Len = t.Len()
 			e.Bounded = t.Root != nil && t.Root.Bounding != nil
@@ -253,7 +279,7 @@ func recordIndexTrace(out *core.Out, args []string, seed int64, sum *core.Summar
 
 // boxQueries logs what kdtree.DoBounded visits for nq closed boxes whose faces lie on
 // stored coordinates (ties on the splitting planes), between and outside them.
-func boxQueries(out *core.Out, sum *core.Summary, rng *rand.Rand, t *kdtree.Tree, bag [][]int, dim, span, nq int) {
+func boxQueries(out *core.Out, sum *core.Summary, rng *rand.Rand, kk *kdKind, t *kdtree.Tree, bag [][]int, dim, span, nq int) {
 	for i := 0; i < nq; i++ {
 		lo, hi := make([]int, dim), make([]int, dim)
 		for j := range lo {
@@ -275,8 +301,8 @@ func boxQueries(out *core.Out, sum *core.Summary, rng *rand.Rand, t *kdtree.Tree
 		e := blank("dobounded")
 		e.Lo, e.Hi = lo, hi
 		res := [][]int{}
-		e.Stopped = t.DoBounded(&kdtree.Bounding{Min: toPoint(lo), Max: toPoint(hi)}, func(c kdtree.Comparable, _ *kdtree.Bounding, _ int) bool {
-			res = append(res, toInts(c.(kdtree.Point)))
+		e.Stopped = t.DoBounded(&kdtree.Bounding{Min: kk.point(toFloats(lo), -2), Max: kk.point(toFloats(hi), -3)}, func(c kdtree.Comparable, _ *kdtree.Bounding, _ int) bool {
+			res = append(res, toInts(kk.coords(c)))
 			return false
 		})
 		e.Res = res
@@ -294,7 +320,7 @@ func isSquare(n int) bool {
 	return false
 }
 
-func kdRes(h kdtree.Heap) ([][]int, []int) {
+func kdRes(kk *kdKind, h kdtree.Heap) ([][]int, []int) {
 	res, cd := [][]int{}, []int{}
 	for _, e := range h {
 		if e.Comparable == nil {
@@ -302,27 +328,27 @@ func kdRes(h kdtree.Heap) ([][]int, []int) {
 			cd = append(cd, -1)
 			continue
 		}
-		res = append(res, toInts(e.Comparable.(kdtree.Point)))
+		res = append(res, toInts(kk.coords(e.Comparable)))
 		cd = append(cd, exactInt(e.Dist))
 	}
 	return res, cd
 }
 
-func vpRes(h vptree.Heap) [][]int {
+func vpRes(vk *vpKind, h vptree.Heap) [][]int {
 	res := [][]int{}
 	for _, e := range h {
 		if e.Comparable == nil {
 			res = append(res, []int{})
 			continue
 		}
-		res = append(res, toInts(e.Comparable.(vptree.Point)))
+		res = append(res, toInts(vk.coords(e.Comparable)))
 	}
 	return res
 }
 
 // dumpTree lists every node (root first) with its bounding box and the points
 // of its subtree.
-func dumpTree(n *kdtree.Node) []tNode {
+func dumpTree(kk *kdKind, n *kdtree.Node) []tNode {
 	var nodes []tNode
 	var walk func(n *kdtree.Node) [][]int
 	walk = func(n *kdtree.Node) [][]int {
@@ -331,14 +357,14 @@ func dumpTree(n *kdtree.Node) []tNode {
 		}
 		idx := len(nodes)
 		nodes = append(nodes, tNode{Lo: []int{}, Hi: []int{}})
-		sub := [][]int{toInts(n.Point.(kdtree.Point))}
+		sub := [][]int{toInts(kk.coords(n.Point))}
 		sub = append(sub, walk(n.Left)...)
 		sub = append(sub, walk(n.Right)...)
 		nd := tNode{Lo: []int{}, Hi: []int{}, Sub: sub}
 		if n.Bounding != nil {
 			nd.HasBox = true
-			nd.Lo = toInts(n.Bounding.Min.(kdtree.Point))
-			nd.Hi = toInts(n.Bounding.Max.(kdtree.Point))
+			nd.Lo = toInts(kk.coords(n.Bounding.Min))
+			nd.Hi = toInts(kk.coords(n.Bounding.Max))
 		}
 		nodes[idx] = nd
 		return sub
